@@ -173,10 +173,17 @@ def build(rng, depth=None, custom_data=None, auth_len=None, windows=None, leaf_c
     m.cert_keys = []
     m.certs = []
     issuer_key, issuer_cn = m.root_key, "root"
+    # (one chain in eight holds a certificate whose issuer field does not spell its
+    # certifier's subject name: who certifies whom is said by the certificate file's
+    # `signed_by` and settled by the signature - names are labels)
+    m.odd_issuer_name = rng.randrange(depth) if rng.random() < 1 / 8 else None
     for i in range(depth):
         curve = leaf_curve if (leaf_curve is not None and i == depth - 1) else None
         k = new_key(rng, curve)
         cn = "ca%d" % i
+        if m.odd_issuer_name == i:
+            issuer_cn = rng.choice(["Intel SGX Root CA", issuer_cn.upper(), issuer_cn + " ",
+                                    "x", cn])
         c = make_cert(cn, k.public_key(), issuer_cn, issuer_key, window=windows[i],
                       serial=10 + i, ca=(i < depth - 1))
         m.cert_keys.append(k)
